@@ -170,6 +170,31 @@ pub fn credential_validation(cex: &Value) -> Result<String, String> {
       run(&good, &issuer, &base().verification_options(JwsVerificationOptions::default().method_id(DIDUrl::parse(&auth_kid).unwrap())), FailFast::FirstError),
       false,
     );
+    // unset bounds default to the current time, each on its own: a credential issued in the future / already expired is refused
+    // whatever the *other* bound says, and an honest one is accepted
+    {
+      let now = Timestamp::now_utc().to_unix();
+      let day = 86400;
+      let mk = |issued: i64, expires: i64| {
+        let c = credential(ISSUER, HOLDER, ts(issued), Some(ts(expires)));
+        sign_jwt(&c.serialize_jwt(None).unwrap(), Some(&kid), None, &method_key(ISSUER, "#assert"))
+      };
+      let plain = || JwtCredentialValidationOptions::default();
+      let future_issued = mk(now + 10 * day, now + 100 * day);
+      let current = mk(now - 10 * day, now + 10 * day);
+      let expired = mk(now - 100 * day, now - 10 * day);
+      for ff in [FailFast::FirstError, FailFast::AllErrors] {
+        expect("[default-bounds] issued in the future, no bounds configured", run(&future_issued, &issuer, &plain(), ff), false);
+        expect("[default-bounds] issued in the future, only an expiry bound (later than the issuance) configured", run(&future_issued, &issuer, &plain().earliest_expiry_date(ts(now + 50 * day)), ff), false);
+        expect("[default-bounds] issued in the future, only an expiry bound in the past configured", run(&future_issued, &issuer, &plain().earliest_expiry_date(ts(now - 50 * day)), ff), false);
+        expect("[default-bounds] current credential, no bounds configured", run(&current, &issuer, &plain(), ff), true);
+        expect("[default-bounds] current credential, only an expiry bound in the past configured", run(&current, &issuer, &plain().earliest_expiry_date(ts(now - 50 * day)), ff), true);
+        expect("[default-bounds] current credential, only an issuance bound in the future configured", run(&current, &issuer, &plain().latest_issuance_date(ts(now + 50 * day)), ff), true);
+        expect("[default-bounds] expired credential, no bounds configured", run(&expired, &issuer, &plain(), ff), false);
+        expect("[default-bounds] expired credential, only an issuance bound (earlier than the expiry) configured", run(&expired, &issuer, &plain().latest_issuance_date(ts(now - 50 * day)), ff), false);
+        expect("[default-bounds] expired credential, only an issuance bound in the future configured", run(&expired, &issuer, &plain().latest_issuance_date(ts(now + 50 * day)), ff), false);
+      }
+    }
     expect("validated against another issuer document", run(&good, &other_doc, &base(), FailFast::FirstError), false);
     // method of a foreign DID listed in the issuer document: method DID != document id / credential issuer
     let foreign_kid = format!("{OTHER}#foreign");
@@ -381,6 +406,33 @@ pub fn presentation_validation(cex: &Value) -> Result<String, String> {
         v["iat"] = serde_json::json!(n);
       }
       expect(name, run(&sign_jwt(&v.to_string(), Some(&kid), None, &method_key(HOLDER, "#auth")), &holder, &base()), want);
+    }
+    // exp outside the representable range is an error whatever the bounds are - never "no expiry"
+    for exp in [-62167219201i64, i64::MIN, i64::MIN + 1, 253402300800, i64::MAX] {
+      let mut v: serde_json::Value = serde_json::from_str(&claims).unwrap();
+      v["exp"] = serde_json::json!(exp);
+      let jwt = sign_jwt(&v.to_string(), Some(&kid), None, &method_key(HOLDER, "#auth"));
+      expect(&format!("[dates] exp = {exp} (outside 0000..9999), usual bounds"), run(&jwt, &holder, &base()), false);
+      expect(&format!("[dates] exp = {exp} (outside 0000..9999), earliest-expiry bound at the lower end"), run(&jwt, &holder, &base().earliest_expiry_date(ts(-62167219200))), false);
+    }
+    // the audience handed back is the one that was signed: shapes the claim type does not carry are an error, not "unbound" and
+    // not "the first URL found"
+    for (name, aud) in [
+      ("a plain string that is not a URL", serde_json::json!("verifier-b")),
+      ("an array of two URLs", serde_json::json!(["https://verifier-a.example", "https://verifier-b.example"])),
+      ("an array of a name and a URL", serde_json::json!(["verifier-b", "https://verifier-a.example"])),
+      ("an array of one URL", serde_json::json!(["https://verifier.example"])),
+      ("an empty array", serde_json::json!([])),
+      ("a number", serde_json::json!(7)),
+      ("an object", serde_json::json!({"id": "https://verifier.example"})),
+      ("an empty string", serde_json::json!("")),
+    ] {
+      let mut v: serde_json::Value = serde_json::from_str(&claims).unwrap();
+      v["aud"] = aud.clone();
+      match run(&sign_jwt(&v.to_string(), Some(&kid), None, &method_key(HOLDER, "#auth")), &holder, &base()) {
+        Ok(d) => log.borrow_mut().push(format!("[aud] token whose aud is {name} ({aud}) accepted; audience handed back: {:?}", d.aud.as_ref().map(|u| u.to_string()))),
+        Err(_) => {}
+      }
     }
     // issuance carried only in iat: it is what the bound applies to and what is handed back
     {
